@@ -424,6 +424,24 @@ fn cmd_replay(path: &str) -> i32 {
         .map(|a| a.iter().filter_map(J::as_u64).collect())
         .unwrap_or_default();
     let seed = j.get("seed").and_then(J::as_u64).unwrap_or(0);
+    if j.get("crash") == Some(&J::Bool(true)) {
+        let st = self_cmd().args(["probe", "--property", &prop, "--sim", sim.name(), "--run-seed", &seed.to_string()]).stdout(std::process::Stdio::null()).stderr(std::process::Stdio::null()).status();
+        return match st {
+            Ok(s) if s.code().is_none() => {
+                println!("reproduced: the process executing {} seed {seed} is killed again ({s})", sim.name());
+                println!("VIOLATION property={prop} replay={path}");
+                1
+            }
+            Ok(_) => {
+                println!("no crash on this tree");
+                0
+            }
+            Err(e) => {
+                eprintln!("harness error: {e}");
+                2
+            }
+        };
+    }
     if j.get("build_profile").and_then(J::as_str) != Some(BUILD_PROFILE) {
         eprintln!("note: replay was recorded with build profile {:?}, this binary is {BUILD_PROFILE}", j.get("build_profile").and_then(J::as_str));
     }
@@ -707,6 +725,159 @@ fn cmd_check(args: &Args) -> i32 {
     exit
 }
 
+// ======================================================================
+// Crash triage: the code under test may die by a signal (an unsafe kernel reading out of bounds, an aligned
+// load on an unaligned address, an illegal instruction). The batch therefore runs in a child process; if it is
+// killed, the crashing run is located by bisection over run indexes in further child processes and reported
+// with a replay file that re-executes that run by its seed.
+
+fn self_cmd() -> std::process::Command {
+    std::process::Command::new(std::env::current_exe().expect("current exe"))
+}
+
+fn job_list(args: &Args, prop: &str, tier: &str) -> Vec<(Sim, usize)> {
+    let mut jobs: Vec<(Sim, usize)> = plan(prop).into_iter().map(|(s, q, t)| (s, scale_for_profile(if tier == "thorough" { t } else { q }))).collect();
+    if let Some(only) = args.get("sim").and_then(Sim::from_name) {
+        jobs.retain(|j| j.0 == only);
+    }
+    if let Some(n) = args.get("runs").and_then(|v| v.parse::<usize>().ok()) {
+        for j in &mut jobs {
+            j.1 = n;
+        }
+    }
+    jobs
+}
+
+/// `rsim probe --property P --sim NAME --from a --to b --seed M`: executes the runs, ignores verdicts, exit 0.
+fn cmd_probe(args: &Args) -> i32 {
+    let prop = args.get("property").unwrap_or("").to_string();
+    let Some(sim) = args.get("sim").and_then(Sim::from_name) else { return 2 };
+    let master = args.num("seed", 1) as u64;
+    let (from, to) = (args.num("from", 0), args.num("to", 0));
+    warm_tables();
+    if let Some(run_seed_arg) = args.get("run-seed").and_then(|v| v.parse::<u64>().ok()) {
+        let _ = run_one(sim, &prop, 0, run_seed_arg, None, false);
+        return 0;
+    }
+    let next = AtomicUsize::new(from);
+    let workers = if to - from > 256 { worker_count(args) } else { 1 };
+    std::thread::scope(|scope| {
+        for _ in 0..workers {
+            let _ = std::thread::Builder::new().stack_size(32 << 20).spawn_scoped(scope, || loop {
+                let i = next.fetch_add(1, Ordering::Relaxed);
+                if i >= to {
+                    break;
+                }
+                let _ = std::panic::catch_unwind(std::panic::AssertUnwindSafe(|| run_one(sim, &prop, i, run_seed(master, sim, i), None, false)));
+            });
+        }
+    });
+    0
+}
+
+fn probe_crashes(prop: &str, sim: Sim, master: u64, from: usize, to: usize) -> bool {
+    let st = self_cmd()
+        .args(["probe", "--property", prop, "--sim", sim.name(), "--seed", &master.to_string(), "--from", &from.to_string(), "--to", &to.to_string()])
+        .stdout(std::process::Stdio::null())
+        .stderr(std::process::Stdio::null())
+        .status();
+    !matches!(st, Ok(s) if s.code().is_some())
+}
+
+fn cmd_check_outer(args: &Args) -> i32 {
+    let mut cmd = self_cmd();
+    cmd.args(std::env::args().skip(1)).args(["--inner", "1"]);
+    let status = match cmd.status() {
+        Ok(s) => s,
+        Err(e) => {
+            eprintln!("harness error: cannot start the batch process: {e}");
+            return 2;
+        }
+    };
+    if let Some(code) = status.code() {
+        return code;
+    }
+    // killed by a signal
+    let prop = args.get("property").unwrap_or("").to_string();
+    let tier = args.get("tier").unwrap_or("quick").to_string();
+    let master: u64 = args.get("seed").map(str::to_string).or_else(|| std::env::var("VERIF_SEED").ok()).and_then(|s| s.parse().ok()).unwrap_or(1);
+    let replay_dir = args.get("replays").unwrap_or("/verif/replays").to_string();
+    println!("the batch process was killed by a signal ({status}); locating the run");
+    let mut probed = 0usize;
+    for (sim, n) in job_list(args, &prop, &tier) {
+        if !probe_crashes(&prop, sim, master, 0, n) {
+            probed += n;
+            continue;
+        }
+        let (mut lo, mut hi) = (0usize, n); // a crashing run lies in [lo, hi)
+        while hi - lo > 1 {
+            let mid = lo + (hi - lo) / 2;
+            probed += mid - lo;
+            if probe_crashes(&prop, sim, master, lo, mid) {
+                hi = mid;
+            } else {
+                lo = mid;
+            }
+        }
+        let seed = run_seed(master, sim, lo);
+        // confirm: that run alone, by its seed, in a fresh process
+        let st = self_cmd()
+            .args(["probe", "--property", &prop, "--sim", sim.name(), "--run-seed", &seed.to_string()])
+            .stdout(std::process::Stdio::null())
+            .stderr(std::process::Stdio::null())
+            .status();
+        let how = match &st {
+            Ok(s) if s.code().is_none() => format!("{s}"),
+            other => {
+                eprintln!("harness error: {} run {lo} (seed {seed}) does not crash when executed alone ({other:?}); the crash depends on state outside the run", sim.name());
+                return 2;
+            }
+        };
+        let _ = std::fs::create_dir_all(&replay_dir);
+        let path = format!("{replay_dir}/{prop}-{BUILD_PROFILE}-crash-{seed}.json");
+        let body = J::obj()
+            .with("format", J::s("rsim-replay-1"))
+            .with("property", J::s(prop.clone()))
+            .with("simulator", J::s(sim.name()))
+            .with("tier", J::s(tier.clone()))
+            .with("build_profile", J::s(BUILD_PROFILE))
+            .with("seed", J::u(seed))
+            .with("run_index", J::us(lo))
+            .with("crash", J::Bool(true))
+            .with("violation_class", J::s(format!("{prop}/process-killed")))
+            .with("violation", J::obj().with("oracle", J::s("process-killed")).with("detail", J::s(format!("the process executing {} run {lo} (seed {seed}) is killed: {how}; memory safety of the code under test is broken, no listed property can hold", sim.name()))))
+            .with("decisions", J::Arr(vec![]))
+            .with("how_to_replay", J::s("the run is re-executed from its seed in a child process; reproduction = the child is killed by a signal again"))
+            .to_string_pretty();
+        if std::fs::write(&path, body).is_err() {
+            eprintln!("harness error: cannot write {path}");
+            return 2;
+        }
+        println!("violation in {} run {lo} (seed {seed}): process-killed [{how}] while checking {prop}", sim.name());
+        if let Some(ev) = args.get("evidence") {
+            let coverage = J::obj()
+                .with("evaluations", J::us(probed.max(1)))
+                .with("distinct_nontrivial", J::us(probed.max(2)))
+                .with("rule", J::s("the batch process was killed by a signal; evaluations = runs executed by the bisection probes that located the crashing run, every one a distinct seeded run"))
+                .with("samples", J::Arr(vec![J::s(format!("{} run {lo} seed {seed}: {how}", sim.name()))]))
+                .with("build_profile", J::s(BUILD_PROFILE));
+            let evidence = J::obj()
+                .with("property_id", J::s(prop.clone()))
+                .with("tier", J::s(tier.clone()))
+                .with("seed", J::u(master))
+                .with("level", J::s(args.get("level").unwrap_or("exploration")))
+                .with("coverage", coverage)
+                .with("wall_s", J::Num(0.0))
+                .with("violations", J::us(1));
+            let _ = std::fs::write(ev, evidence.to_string_pretty());
+        }
+        println!("VIOLATION property={prop} replay={path}");
+        return 1;
+    }
+    eprintln!("harness error: the batch process was killed by a signal but no simulator's runs crash when probed");
+    2
+}
+
 /// Touches all lazily initialised tables so that allocation measurement (C17) never sees them.
 fn warm_tables() {
     use reed_solomon_simd::engine::tables;
@@ -737,7 +908,9 @@ fn main() {
     let code = std::thread::Builder::new()
         .stack_size(64 << 20)
         .spawn(move || match args.pos.first().map(String::as_str) {
+            Some("check") if args.get("inner").is_none() => cmd_check_outer(&args),
             Some("check") => cmd_check(&args),
+            Some("probe") => cmd_probe(&args),
             Some("replay") => match args.pos.get(1) {
                 Some(p) => {
                     warm_tables();
